@@ -16,6 +16,7 @@ import Noodles.Trunc.DriverC13More
 import Noodles.Bgzf.DriverC13Seek
 import Noodles.Bam.DriverC05
 import Noodles.Bam.DriverC05Reenc
+import Noodles.Bam.DriverC05Fast
 import Noodles.Bgzf.DriverC14
 import Noodles.Io.DriverC14More
 import Noodles.Vcf.DriverC09
@@ -44,6 +45,7 @@ def dispatch (line : String) : String :=
   | "c10" :: rest => Bcf.handleC10X rest
   | "c18" :: rest => Gff.Driver.handleC18 rest
   | "c13" :: rest => ((Trunc.More.handle? rest) <|> (Bgzf.SC.handle? rest)).getD (Trunc.handleC13 rest)
+  | "c05" :: "fast" :: rest => Bam.DriverFast.handle rest
   | "c05" :: "re" :: rest => Bam.DriverReenc.handle rest
   | "c05" :: rest => Bam.Driver.handle rest
   | "c14" :: rest => (WP.Driver.handle? rest).getD (Bgzf.SM.handleC14 rest)
